@@ -1,5 +1,6 @@
 import Driver.Judge
 import Muxide.Spec.Expect
+import Muxide.Spec.Contract
 /-
   Driver.Hist — oracles and projections for the properties that read a finished progressive
   file back: C01, C02, C03, C06, C08, C09, C15, C16, C18.
@@ -35,6 +36,39 @@ def accA (ops : List (List String)) (o : PObs) : List AF :=
     match op with
     | ["wa", p, d] => let x := f64Tok p; some ⟨x, x.ticks, unhex d⟩
     | _ => none
+
+/-- key-frame detection of the convenience form `encode_video`, read off the property's vocabulary:
+    an IDR unit (H.264 type 5, H.265 types 19..21), the first video frame (AV1), a VP9 key frame header -/
+def autoKeyOf (codec : VCodec) (firstVideo : Bool) (d : Bytes) : Bool :=
+  match codec with
+  | .h264 => (nalTypesH264 d).contains 5
+  | .h265 => (nalTypesH265 d).any fun t => 19 ≤ t && t ≤ 21
+  | .av1 => firstVideo
+  | .vp9 => (match isVp9Keyframe d with | .ok b => b | _ => false)
+
+/-- the history with the convenience calls written out as explicit-timestamp calls, for the oracles:
+    `encode_video(data, ms)` is `write_video(clock_v, data, detected key flag)` and advances `clock_v` by
+    `ms / 1000` when it was accepted; `encode_audio(data, n)` is `write_audio(clock_a, data)` and advances
+    `clock_a` by `n / sample_rate` when it was accepted (f64 arithmetic).  Replies stay aligned 1:1. -/
+def explicitOps (c : PCase) (o : PObs) : List (List String) :=
+  let rate := (c.cfg.audio.map (·.sampleRate)).getD 0
+  let step (acc : List (List String) × F64 × F64 × Bool) (x : List String × Option (PR × Nat)) :=
+    let (out, cv, ca, seenV) := acc
+    let (op, r?) := x
+    let accepted := match r? with | some r => opAccepted r | none => false
+    match op with
+    | ["ev", d, ms] =>
+      let key := autoKeyOf c.cfg.codec (!seenV) (unhex d)
+      (out ++ [["wv", hex16 cv.toBits, d, if key then "1" else "0"]],
+       (if accepted then F64.add cv (F64.div (F64.ofNat ms.toNat!) (F64.ofNat 1000)) else cv), ca, seenV || accepted)
+    | ["ea", d, n] =>
+      (out ++ [["wa", hex16 ca.toBits, d]], cv,
+       (if accepted then F64.add ca (F64.div (F64.ofNat n.toNat!) (F64.ofNat rate)) else ca), seenV)
+    | ["wv", _, _, _] => (out ++ [op], cv, ca, seenV || accepted)
+    | ["wvd", _, _, _, _] => (out ++ [op], cv, ca, seenV || accepted)
+    | _ => (out ++ [op], cv, ca, seenV)
+  let rs : List (Option (PR × Nat)) := (List.range c.ops.length).map fun i => o.replies[i]?
+  ((List.zip c.ops rs).foldl step ([], F64.zero, F64.zero, false)).1
 
 def isAnnexB (c : PCase) : Bool := c.cfg.codec == .h264 || c.cfg.codec == .h265
 def isAdts (c : PCase) : Bool := match c.cfg.audio with | some a => (match a.codec with | .aac _ => true | _ => false) | none => false
